@@ -51,7 +51,11 @@ def gen_uist_order(rng, malformed=False):
         elif price is None:
             price = rng.choice([None, 100.0])     # market order carrying a price
         via = "json"
-    return dict(type=t, symbol=sym, shares=f2b(shares), price=None if price is None else f2b(price), via=via)
+    o = dict(type=t, symbol=sym, shares=f2b(shares), price=None if price is None else f2b(price), via=via)
+    if via == "json" and rng.random() < 0.15:
+        # a client re-submitting an Order object it got back from a tick: order_id already set
+        o["order_id"] = rng.choice([0, 1, 2, 3, 7])
+    return o
 
 
 def gen_uist_scenario(rng, n_ops=None, malformed=False, batch=None, weird=False):
@@ -248,7 +252,7 @@ def g_usnap(s):
 
 
 def strip_id(o):
-    return {k: v for k, v in o.items() if k != "id"}
+    return {k: v for k, v in o.items() if k not in ("id", "order_id", "via")}
 
 
 def compute_perm(buffer, admitted, key):
